@@ -26,11 +26,27 @@ from harness import impl
 from harness import tlc
 
 ALPHABET = [39, 34, 92, 10, 9, 37, 123, 125, 36, 35, 45, 47, 42, 59, 96, 40,
-            41, 233, 119070, 97, 32]
+            41, 233, 1044, 119070, 97, 32]
 DIALECTS = ['sqlite', 'duckdb', 'psql', 'bigquery', 'trino', 'presto',
             'clickhouse', 'databricks']
 POSITIONS = ['fact', 'list', 'record', 'concat', 'default', 'user']
-FORMS = ['dq', 'sq', 'tq']
+# The literal as an argument of a built-in call (SQL text made from a template:
+# {0}-style Element/Join/Size/Like, %s-style Greatest/ToString/Format; Upper is
+# passed through).  Top-level context only.
+FN_POSITIONS = ['element', 'joinsep', 'greatest', 'tostring', 'format',
+                'upper', 'size', 'like']
+FN_SQL_POSITIONS = ['element', 'joinsep', 'greatest', 'format', 'upper']
+FN_EXPR = {
+    'element': 'Element([%s, "a"], 0)',
+    'joinsep': 'Join(["a", "a"], %s)',
+    'greatest': 'Greatest(%s, "")',
+    'tostring': 'ToString(%s)',
+    'format': 'Format("%%s", %s)',
+    'upper': 'Upper(%s)',
+    'size': 'ToString(Size([%s]))',
+    'like': 'ToString(Like(%s, "%%"))',
+}
+FORMS = ['dq', 'sq', 'tq', 'sqraw']
 MARKER = 'qzq'
 ISOLATION_BUDGET = 48    # extra programs per failing batch of strings
 
@@ -62,7 +78,18 @@ def CanWrite(form, s):
     return '"' not in s and '\n' not in s
   if form == 'tq':
     return '"""' not in s and not s.endswith('"')
+  if form == 'sqraw':
+    return any(_LoneOk(s, i) for i in range(len(s)))
   return True
+
+
+_ESCAPE_LETTERS = set('\'"\\\nabfnrtvxNuU0123456789')
+
+
+def _LoneOk(s, i):
+  """The backslash at s[i] can be written alone in '...': the next character
+  does not make an escape sequence with it."""
+  return s[i] == '\\' and i + 1 < len(s) and s[i + 1] not in _ESCAPE_LETTERS
 
 
 def Render(form, s):
@@ -71,8 +98,11 @@ def Render(form, s):
   if form == 'tq':
     return '"""' + s + '"""'
   out = []
-  for c in s:
-    out.append({"'": "\\'", '\\': '\\\\', '\n': '\\n'}.get(c, c))
+  for i, c in enumerate(s):
+    if form == 'sqraw' and _LoneOk(s, i):
+      out.append('\\')
+    else:
+      out.append({"'": "\\'", '\\': '\\\\', '\n': '\\n'}.get(c, c))
   return "'" + ''.join(out) + "'"
 
 
@@ -186,6 +216,8 @@ def _RuleFor(pos, ctx, i, lit):
   if pos == 'user':
     return ('@DefineFlag("fu%d", "a");\n' % i +
             head % ('FlagValue("fu%d")' % i) + ';')
+  if pos in FN_EXPR:
+    return head % (FN_EXPR[pos] % lit) + ';'
   raise ValueError(pos)
 
 
@@ -288,13 +320,18 @@ def _RunBatch(pos, ctx, lits, values):
     return res
 
 
+def _Forms(form, strings):
+  return list(form) if isinstance(form, (list, tuple)) else [form] * len(strings)
+
+
 def _PipeTask(task):
   pos, ctx, form, strings = task
+  forms = _Forms(form, strings)
   if pos == 'user':
     lits = ['"a"'] * len(strings)
     values = strings
   else:
-    lits = [Render(form, s) for s in strings]
+    lits = [Render(f, s) for f, s in zip(forms, strings)]
     values = [None] * len(strings)
   budget = [ISOLATION_BUDGET]
 
@@ -312,7 +349,7 @@ def _PipeTask(task):
     return Solve(ls[:h], vs[:h]) + Solve(ls[h:], vs[h:])
   res = Solve(lits, values)
   recs = []
-  for s, l, (st, got, detail) in zip(strings, lits, res):
+  for s, l, form, (st, got, detail) in zip(strings, lits, forms, res):
     written = s if pos == 'user' else l
     rec = {'k': 'pipe', 'pos': pos, 'ctx': ctx, 'form': form,
            'lit': written, 'status': st, 'got': got, '_key': s,
@@ -326,32 +363,34 @@ def _PipeTask(task):
 _PARAM_FORM = re.compile(r'[$][{][^\n]*[}]')
 
 
-def _Batches(strings, pos, batch):
-  """Scheduling only: a program is rejected as a whole when one of its
-  literals has the parameter form ${..} with an undefined name (or, in the
-  record position, merely contains "${": known finding), so such strings get
-  a program of their own instead of spoiling a batch."""
-  alone = [s for s in strings if pos != 'user' and (
-      _PARAM_FORM.search(s) or (pos == 'record' and '${' in s))]
-  aset = set(alone)
-  together = [s for s in strings if s not in aset]
+def _Batches(pairs, pos, batch):
+  """pairs: [(form, string)].  Scheduling only: a program is rejected as a
+  whole when one of its literals has the parameter form ${..} with an
+  undefined name, so such strings get a program of their own instead of
+  spoiling a batch (any other failing batch is bisected by _PipeTask)."""
+  alone = [p for p in pairs if pos != 'user' and _PARAM_FORM.search(p[1])]
+  together = [p for p in pairs if not (pos != 'user' and
+                                       _PARAM_FORM.search(p[1]))]
   parts = [together[i:i + batch] for i in range(0, len(together), batch)]
-  return parts + [[s] for s in alone]
+  return parts + [[p] for p in alone]
 
 
-def PipeTasks(strings, batch, forms_for=None):
-  """(pos, ctx, form, [strings]) tasks covering every position, both contexts
-  and every literal form that can carry the string."""
+def PipeTasks(strings, batch, forms_for=None, positions=None):
+  """(pos, ctx, [forms], [strings]) tasks covering every position, both
+  contexts and every literal form that can carry the string (a program mixes
+  literal forms; each record carries the form its literal was written in)."""
   tasks = []
-  for pos in POSITIONS:
-    for ctx in ('top', 'nested'):
+  for pos in positions or POSITIONS + FN_POSITIONS:
+    for ctx in (('top',) if pos in FN_EXPR else ('top', 'nested')):
       forms = ['argv'] if pos == 'user' else FORMS
+      pairs = []
       for form in forms:
         sel = [s for s in strings if form == 'argv' or CanWrite(form, s)]
         if forms_for is not None:
           sel = [s for s in sel if form in forms_for(s, pos, ctx)]
-        for part in _Batches(sel, pos, batch):
-          tasks.append((pos, ctx, form, part))
+        pairs += [(form, s) for s in sel]
+      for part in _Batches(pairs, pos, batch):
+        tasks.append((pos, ctx, [f for f, _ in part], [s for _, s in part]))
   return tasks
 
 
@@ -379,7 +418,7 @@ def _SqlRules(pos, ctx, name, flag, lit):
                  head % ('FlagValue("%s")' % flag) + ';',
       'user': '@DefineFlag("%s", "a");\n' % flag +
               head % ('FlagValue("%s")' % flag) + ';',
-  }[pos]
+  }.get(pos) or head % (FN_EXPR[pos] % lit) + ';'
   if ctx == 'nested':
     body += '\n%s(i: -1, v: %s);' % (name, '{f: "a"}' if pos == 'record'
                                      else '"a"')
@@ -431,10 +470,12 @@ def _SqlBatch(d, pos, ctx, lits, values):
 
 def _SqlTask(task):
   d, pos, ctx, form, strings = task
+  forms = _Forms(form, strings)
   if pos == 'user':
     lits, values = ['"a"'] * len(strings), strings
   else:
-    lits, values = [Render(form, s) for s in strings], [None] * len(strings)
+    lits = [Render(f, s) for f, s in zip(forms, strings)]
+    values = [None] * len(strings)
   err = io.StringIO()
   with contextlib.redirect_stderr(err), contextlib.redirect_stdout(err):
     out = _SqlBatch(d, pos, ctx, lits, values)
@@ -443,7 +484,7 @@ def _SqlTask(task):
     else:
       parts = [([r], out[1], out[2]) for r in out[0]]
   recs = []
-  for s, l, (res, ref, mpos) in zip(strings, lits, parts):
+  for s, l, form, (res, ref, mpos) in zip(strings, lits, forms, parts):
     st, sql, detail = res[0]
     written = s if pos == 'user' else l
     rec = {'k': 'sql', 'd': d, 'pos': pos, 'ctx': ctx, 'form': form,
@@ -460,15 +501,13 @@ def _SqlTask(task):
 def SqlTasks(strings, batch, dialects=None):
   tasks = []
   for d in dialects or DIALECTS:
-    for pos in POSITIONS:
-      for ctx in ('top', 'nested'):
-        by_form = {}
-        for s in strings:
-          form = 'argv' if pos == 'user' else PrimaryForm(s)
-          by_form.setdefault(form, []).append(s)
-        for form, sel in sorted(by_form.items()):
-          for part in _Batches(sel, pos, batch):
-            tasks.append((d, pos, ctx, form, part))
+    for pos in POSITIONS + FN_SQL_POSITIONS:
+      for ctx in (('top',) if pos in FN_EXPR else ('top', 'nested')):
+        pairs = [('argv' if pos == 'user' else PrimaryForm(s), s)
+                 for s in strings]
+        for part in _Batches(pairs, pos, batch):
+          tasks.append((d, pos, ctx, [f for f, _ in part],
+                        [s for _, s in part]))
   return tasks
 
 
